@@ -22,6 +22,7 @@ EXPLANATION = (
   "against font size / height) and the em reference is the font size; (DSP-units) _compute_length converts every non-root unit."
   " (FIN-ruby) the guard under which an inherited font size is halved equals, for every (element kind, parent kind) pair the content model allows, `rtc, or rt outside an rtc`;"
   " (STATE-alias / STATE-global) no function of the anchored modules mutates a module- or class-level container, rebinds module / class state or mutates a mutable default argument, so a result never depends on earlier calls;"
+  " (ORD-animlast) of the `set` steps active at the offset the last in document order decides: the loop over the animation steps stores every active step on the snapshot element - no test in it reads the snapshot element (has_style / get_style), no break;"
   " (MEMO-key) caches in isd.py are not keyed by dataclass values (two equal animation steps of different elements would share an entry);"
   ' (CMP-activity) an element or animation step is active on the half-open interval [begin, end): begin inclusive, end exclusive, None unbounded;'
   " (TAB-applies) every style property's processor lists the element kinds it applies to as in the TTML2 / IMSC table;"
@@ -441,6 +442,7 @@ def run(ctx):
   # ... and its interval is resolved against the element that carries the step
   nf = isdrules.check_frames(ctx, ctx.ix.func("ttconv.isd:ISD._process_element"), recursive_name="_process_element")
   ctx.floor("DEP-frame", "frame agreement sites in _process_element", nf, 2)
+  ctx.floor("ORD-animlast", "loops over animation steps in _process_element", isdrules.check_animation_last_wins(ctx, ctx.ix.func("ttconv.isd:ISD._process_element")), 1)
   from . import c13 as _c13
   _c13.check_compute_bookkeeping(ctx)
   shape.check_cache_keys(ctx, common.funcs(ctx, ["ttconv.isd"]))
